@@ -170,6 +170,8 @@ fn run_program(prog: &[Item], code: &[u8], tiny_stack: bool) -> (Vec<(String, St
     // it) faults, which is how a run "ends in an error" in the middle of a transfer
     ax.init_stack(if tiny_stack { 16 } else { 0x1000 }).unwrap();
     ax.set_max_instructions(60);
+    // a RET finishes the run only when it finds the stack as init_stack left it
+    let rsp0 = ax.reg_read_64(SR::RSP).unwrap();
     // model
     let mut mtrace: Vec<TraceView> = ax.verif_trace_entries();
     let mut mstack: Vec<u64> = ax.verif_call_stack_raw();
@@ -182,6 +184,7 @@ fn run_program(prog: &[Item], code: &[u8], tiny_stack: bool) -> (Vec<(String, St
         let d = if rip >= BASE && rip < end { crate::tmpl::decode_at(&padded[(rip - BASE) as usize..], rip) } else { None };
         let flags = ax.verif_rflags();
         let rax = ax.reg_read_64(SR::RAX).unwrap();
+        let rsp_before = ax.reg_read_64(SR::RSP).unwrap();
         let out = crate::emu::step(&mut ax);
         transitions += 1;
         let depth_class = if depth < 0 { "returns-outnumber-calls" } else { "balanced" };
@@ -239,7 +242,7 @@ fn run_program(prog: &[Item], code: &[u8], tiny_stack: bool) -> (Vec<(String, St
                 }
             }
             FlowControl::Return => {
-                if ax.verif_finished() && now == i.next_ip() {
+                if ax.verif_finished() && now == i.next_ip() && rsp_before == rsp0 {
                     top_level_finish = true; // entry neither required nor forbidden
                 } else {
                     expect = Some((TraceKind::Return, now));
@@ -289,7 +292,9 @@ fn run_program(prog: &[Item], code: &[u8], tiny_stack: bool) -> (Vec<(String, St
             }
             let mut bad = false;
             for (a, b) in itrace.iter().zip(mtrace.iter()) {
-                let lvl_ok = a.level == b.level || depth < 0 || b.level < 0;
+                // depth follows calls and returns literally: +1 after a call, -1 after a return, also
+                // below the depth the run started at (returns that outnumber calls)
+                let lvl_ok = a.level == b.level;
                 if a.instr_ip != b.instr_ip || a.target != b.target || a.kind != b.kind {
                     viol.push((format!("trace|wrong-entry|{kname}"), format!("{ctx}: after `{i}` at {rip:#x}: trace entry {a:?}, independent tracer {b:?}")));
                     bad = true;
@@ -483,7 +488,7 @@ pub fn run(tier: Tier) -> i32 {
     run.cov("program_max_length", json!(maxlen));
     run.guard("cases", out.cases >= 10_000 || out.capped, format!("{} programs", out.cases));
     run.guard("traces-distinct", out.distinct > 100, format!("{} distinct trace histories", out.distinct));
-    run.assume("levels are compared only while calls are not outnumbered by returns; a trace entry for the finishing top-level RET is neither required nor forbidden");
+    run.assume("nesting depth is read literally (+1 after a call, -1 after a return, also when returns outnumber calls); a trace entry for the finishing top-level RET is neither required nor forbidden");
     let code = run.finish_batch(&|ws| confirm_enum(&o, &g, ws));
     code
 }
